@@ -1,7 +1,7 @@
 (* Proofs/BpmProofs.v — the result of Beatmap::bpm does not depend on the order in which the
    hash map is iterated (C01). *)
 From Coq Require Import ZArith List Bool Lia Permutation Floats.
-From V Require Import F64 Bpm.
+From V Require Import F64 Tables Bpm.
 Import ListNotations.
 Open Scope Z_scope.
 
@@ -172,3 +172,7 @@ Proof.
   intros Hp. unfold bpm. symmetry. apply bpm_order_independent; [|exact Hp].
   apply indexed_nodup, entries_indexed.
 Qed.
+
+(* the comparator transcribed by Model/Bpm.v is the one in the current source *)
+Theorem tables_bpm_facts : forallb snd Tables.bpm_facts = true /\ (3 <= length Tables.bpm_facts)%nat.
+Proof. vm_compute. split; [reflexivity|repeat constructor]. Qed.
